@@ -179,6 +179,11 @@ def _worker(task):
 
 def _worker_inner(task):
     mod_name, sub_name, tier, seed, shard, nshards, n_cases = task
+    wd = os.environ.get("VERIF_WATCHDOG")          # development aid: dump the Python stack of a shard every N seconds
+    if wd:
+        import faulthandler
+        f = open(os.path.join(os.environ.get("VERIF_WATCHDOG_DIR", "/tmp"), "stack-%s-%s-%d.txt" % (mod_name, sub_name, shard)), "w")
+        faulthandler.dump_traceback_later(int(wd), repeat=True, file=f)
     try:
         mod = importlib.import_module(mod_name)
         sub = [s for s in mod.SUBCHECKS if s.name == sub_name][0]
